@@ -392,7 +392,7 @@ def oracle(ctx, scale):
         # extraction at order 2m through the setup: the global shapes over all sensors (references, then roving by setup)
         order = np.argsort(S.fn)
         try:
-            if rng.random() < 0.5:
+            if ctx.rng.random() < 0.5:
                 ms.mpe("a", sel_freq=[float(S.fn[i]) for i in order], order=m2, rtol=1e-3)
             else:  # the default matching tolerance
                 ms.mpe("a", sel_freq=[float(S.fn[i]) for i in order], order=m2)
